@@ -146,7 +146,7 @@ class C12(Check):
     LEVEL = 'exploration'
     BUDGET = {'quick': 30, 'thorough': 240}
     RULE = ('case = (dataset: distribution gauss/uniform/int/constant/alternating/outlier/small-ints-with-repeats/plateau-then-variation/half-integer lattice x offset {0,+-1,1e3,1e6,1e9} x scale 1e-8..1e8 x '
-            'n in {0,1,2,3,10,100,1000 (quick), 10000 (thorough)} x data seed; operator in the eight aggregates; mode plain / one multiplexed key / '
+            'n in {0,1,2,3,10,100,1000,2500 (quick), 10000 (thorough)} x data seed; operator in the eight aggregates; mode plain / one multiplexed key / '
             '3 interleaved groups under group_by; key_mapper on/off). Every prefix value of the streaming variant and the reduce value are compared '
             'with exact rational statistics under a bound C*n*u*(v+|m|sqrt(v)) + C*n^2*u^2*m^2 (C=4, u=2^-53; sum/mean: C*n*u*sum|x|). '
             'non-trivial = n >= 3 and non-constant data; distinct = hash of the case')
@@ -154,15 +154,15 @@ class C12(Check):
                    'min/max of an empty sequence with reduce=True emit None (pinned by the suite); mean of an empty sequence is outside the domain']
     ANCHORS = ['rxsci/math/sum.py', 'rxsci/math/mean.py', 'rxsci/math/min.py', 'rxsci/math/max.py', 'rxsci/math/variance.py',
                'rxsci/math/stddev.py', 'rxsci/math/formal/variance.py', 'rxsci/math/formal/stddev.py', 'rxsci/math/formal/__init__.py']
-    REQUIRED_TAGS = ['op=' + o for o in OPS] + ['plain', 'mux', 'group', 'km', 'n=0', 'n=1', 'n>=1000', 'offset>=1e6']
+    REQUIRED_TAGS = ['op=' + o for o in OPS] + ['plain', 'mux', 'group', 'km', 'n=0', 'n=1', 'n>=1000', 'n>1024', 'offset>=1e6']
     REQUIRED_OBSERVED = ['values_compared', 'stream_equals_reduce_checks']
 
     def generate(self, rng, tier, shard, nshards):
-        ncases = 1600 if tier == 'quick' else 10 ** 7
+        ncases = 1150 if tier == 'quick' else 10 ** 7
         kinds = ['gauss', 'uniform', 'int', 'constant', 'alternating', 'outlier', 'small_ints', 'plateau', 'lattice']
         offsets = [0.0, 1.0, -1.0, 1e3, 1e6, -1e6, 1e9]
         scales = [1e-8, 1e-3, 1.0, 1.0, 1e3, 1e8]
-        ns = [0, 1, 2, 3, 10, 100, 100, 1000] if tier == 'quick' else [0, 1, 2, 3, 10, 100, 1000, 1000, 10000]
+        ns = [0, 1, 2, 3, 10, 100, 100, 1000, 100, 2500] if tier == 'quick' else [0, 1, 2, 3, 10, 100, 1000, 1000, 2500, 10000]
         modes = ['plain', 'mux', 'group']
         for k in range(ncases):
             op = OPS[k % len(OPS)]
@@ -226,6 +226,8 @@ class C12(Check):
             out.tags.append('km')
         if abs(spec['offset']) >= 1e6:
             out.tags.append('offset>=1e6')
+        if n > 1024:
+            out.tags.append('n>1024')
         if mode == 'group':
             datasets = [build_data(dict(spec, dseed=spec['dseed'] + g, n=max(0, n - g) if n < 4 else n // (g + 1))) for g in range(3)]
             datasets = [d for d in datasets if d] or [build_data(dict(spec, n=1))]
@@ -234,15 +236,32 @@ class C12(Check):
         if n >= 3 and spec['kind'] != 'constant':
             out.nontrivial = True
 
-        stream, f1 = self._run(case, datasets, False)
-        if stream is None:
-            return out.fail('streaming-run-failed', **f1)
+        # the formal operators recompute both moments over all items after every item: O(n^2) in streaming mode.
+        # Beyond 1200 items only their reduce value is checked (still against the exact statistic of all n items).
+        reduce_only = op in ('fvariance', 'fstddev') and n > 1200
+        if reduce_only:
+            out.tags.append('reduce-only')
+            stream = None
+        else:
+            stream, f1 = self._run(case, datasets, False)
+            if stream is None:
+                return out.fail('streaming-run-failed', **f1)
         red, f2 = self._run(case, datasets, True)
         if red is None:
             return out.fail('reduce-run-failed', **f2)
 
         for g, data in enumerate(datasets):
-            sv, rv = stream[g], red[g]
+            rv = red[g]
+            if reduce_only:
+                ex = Exact()
+                for x in data:
+                    ex.add(x)
+                if len(rv) != 1:
+                    return out.fail('reduce-count-differs', want=1, got=len(rv), group=g)
+                if self._check_value(out, op, ex, rv[0], 'reduce', len(data) - 1, g):
+                    return out
+                continue
+            sv = stream[g]
             if len(sv) != len(data):
                 return out.fail('streaming-count-differs', want=len(data), got=len(sv), group=g)
             if len(rv) != 1:
